@@ -70,7 +70,7 @@ def generate(rng, tier):
             elif where == "mark":
                 p = 8 * 65542 - rng.randrange(0, n + 1)
             else:
-                p = rng.randrange(8 * 65542, 8 * ln - n + 1)
+                p = rng.randrange(8 * 65542, max(8 * 65542, 8 * ln - n) + 1)
             op = rng.choice(['rint', 'rbytes', 'rbytes'])
             if op == 'rbytes' and rng.random() < 0.5:
                 p -= p % 8; n = max(8, n - n % 8)
